@@ -481,6 +481,106 @@ def _enclosing_loops(node):
     return out
 
 
+def _loop_constraints(ctx, node):
+    """registers the counted loops that enclose node in ctx.loopvars; -> their bound constraints"""
+    ctx.loopvars = {}
+    for fs in _enclosing_loops(node):
+        cl = _counted_loop(ctx, fs)
+        if cl is None:
+            continue
+        vid, vname, lo, hi = cl
+        ctx.loopvars[vid] = ("i:%s#%d" % (vname, vid), lo, hi)
+    cons = []
+    for vid, (atom, lo, hi) in ctx.loopvars.items():
+        v = Lin({atom: 1})
+        cons += [v - lo, hi - v]
+    return cons
+
+
+def _gather(ctx, f, node, base_cons, seed_atoms, size_cache, skip_size_of=None):
+    """completes base_cons (in place) with the dominating live facts of `node` and the construction sizes of the local containers
+    that become relevant; -> (alternatives from disjunctive facts, facts outside the linear fragment, incompleteness notes,
+    the set of atoms connected to seed_atoms)"""
+    incomplete = []
+    nonlinear = []            # live facts outside the linear fragment: not used in proofs, evaluated on a candidate instance
+    alternatives = [[]]
+    for fact in f.facts_at(node):
+        if fact.belief:
+            continue
+        alts = _fact_alternatives(ctx, fact.cond, fact.pol)
+        if alts is None:
+            nonlinear.append(fact)
+            continue
+        if len(alts) == 1:
+            base_cons += alts[0]
+        elif len(alternatives) * len(alts) <= MAX_CASES:
+            alternatives = [a + b for a in alternatives for b in alts]
+        else:
+            nonlinear.append(fact)
+    relevant = set(seed_atoms)
+    changed = True
+    while changed:
+        changed = False
+        for c in base_cons + [c for alt in alternatives for c in alt]:
+            if c.atoms() & relevant and not c.atoms() <= relevant:
+                relevant |= c.atoms()
+                changed = True
+        for dn in sorted(ctx.divs):
+            if dn in relevant and not ctx.divs[dn][0].atoms() <= relevant:
+                relevant |= ctx.divs[dn][0].atoms()
+                changed = True
+    # local containers that appear in the constraints (loop bounds, other sizes): their construction sizes
+    added = set()
+    for _ in range(4):
+        grew = False
+        for a in sorted(relevant):
+            k2 = ctx.size_keys.get(a)
+            if k2 is None or a in added or a == skip_size_of:
+                continue
+            added.add(a)
+            if k2[3] == "local":
+                if k2 not in size_cache:
+                    size_cache[k2] = _construction_size(ctx, f, k2)
+                cs2 = size_cache[k2]
+                if cs2 is None:
+                    incomplete.append("size of %s" % k2[2])
+                else:
+                    sz2 = Lin({a: 1})
+                    base_cons += [sz2 - cs2, cs2 - sz2]
+                    if not cs2.atoms() <= relevant:
+                        relevant |= cs2.atoms()
+                        grew = True
+        for c in base_cons + [c for alt in alternatives for c in alt]:
+            if c.atoms() & relevant and not c.atoms() <= relevant:
+                relevant |= c.atoms()
+                grew = True
+        for dn in sorted(ctx.divs):
+            if dn in relevant and not ctx.divs[dn][0].atoms() <= relevant:
+                relevant |= ctx.divs[dn][0].atoms()
+                grew = True
+        if not grew:
+            break
+    return alternatives, nonlinear, incomplete, relevant
+
+
+def _cases(ctx, base_cons, alternatives, relevant):
+    """the constraint systems of all feasible cases (disjunctive facts x sign of every truncated quotient's numerator)"""
+    divs_here = [d for d in sorted(ctx.divs) if d in relevant]
+    if len(divs_here) > 3:
+        return None
+    size_nonneg = [Lin({a: 1}) for a in ctx.sizes if a in relevant]
+    out = []
+    for signs in itertools.product([True, False], repeat=len(divs_here)):
+        dc = []
+        for dn, sg in zip(divs_here, signs):
+            dc += ctx.div_constraints(dn, sg)
+        for alt in alternatives:
+            cons = base_cons + alt + dc + size_nonneg
+            if not fm_infeasible(cons):
+                out.append(cons)
+    return out
+
+
 # ---- the rule ---------------------------------------------------------------------------------------------------
 def rule_G7(prog, fixture=False):
     res = RuleResult("G7", "a subscript v[e] of a std::vector / base_array whose size is fixed at this point (a parameter whose size a "
@@ -518,20 +618,7 @@ def rule_G7(prog, fixture=False):
             what = "%s[%s] in %s" % (nm, idx.text()[:50], f.short)
             props = ["C05"] + (["C02"] if (C02_FILES.search(rel) or (fixture and "irfft" in f.name.lower())) else [])
             extra = {"props": props}
-            # enclosing counted loops
-            ctx.loopvars = {}
-            loops_ok = True
-            loop_cons = []
-            for fs in _enclosing_loops(node):
-                cl = _counted_loop(ctx, fs)
-                if cl is None:
-                    continue
-                vid, vname, lo, hi = cl
-                atom = "i:%s#%d" % (vname, vid)
-                ctx.loopvars[vid] = (atom, lo, hi)
-            for vid, (atom, lo, hi) in ctx.loopvars.items():
-                v = Lin({atom: 1})
-                loop_cons += [v - lo, hi - v]
+            loop_cons = _loop_constraints(ctx, node)
             e = ctx.lin(idx)
             if e is None:
                 continue          # index outside the affine fragment (loaded from data, products of variables ...): G2's business
@@ -540,8 +627,6 @@ def rule_G7(prog, fixture=False):
             size = Lin({satom: 1})
             base_cons = list(loop_cons) + [size]
             incomplete = []
-            nonlinear = []            # live facts outside the linear fragment: not used in proofs, evaluated on a candidate instance
-            alternatives = [[]]
             if key[3] == "local":
                 if key not in size_cache:
                     size_cache[key] = _construction_size(ctx, f, key)
@@ -550,93 +635,28 @@ def rule_G7(prog, fixture=False):
                     res.add(okey, UNMODELLED, where, what, "the container's size at this point is not fixed by its construction", func=f.name, extra=extra)
                     continue
                 base_cons += [size - cs, cs - size]
-            # dominating live facts
-            involved = {nm}
-            for fact in f.facts_at(node):
-                if fact.belief:
-                    continue
-                alts = _fact_alternatives(ctx, fact.cond, fact.pol)
-                if alts is None:
-                    nonlinear.append(fact)
-                    continue
-                if len(alts) == 1:
-                    base_cons += alts[0]
-                elif len(alternatives) * len(alts) <= MAX_CASES:
-                    alternatives = [a + b for a in alternatives for b in alts]
-                else:
-                    nonlinear.append(fact)
+            alternatives, nonlinear, more_incomplete, relevant = _gather(ctx, f, node, base_cons, set(e.atoms()) | {satom},
+                                                                         size_cache, skip_size_of=(satom if key[3] == "local" else None))
+            incomplete += more_incomplete
             if key[3] == "parm" and not any(satom in c.atoms() for alt in alternatives for c in (alt + base_cons) if c is not size):
                 res.add(okey, UNMODELLED, where, what, "no live check ties the size of '%s' to anything at this point" % nm, func=f.name, extra=extra)
                 continue
-            # truncated quotients: case split on the sign of each numerator
-            divnames = sorted(ctx.divs)
-            relevant = set(e.atoms()) | {satom}
-            changed = True
-            allc = base_cons + [c for alt in alternatives for c in alt]
-            while changed:
-                changed = False
-                for c in allc:
-                    if c.atoms() & relevant and not c.atoms() <= relevant:
-                        relevant |= c.atoms()
-                        changed = True
-                for dn in divnames:
-                    if dn in relevant and not ctx.divs[dn][0].atoms() <= relevant:
-                        relevant |= ctx.divs[dn][0].atoms()
-                        changed = True
-            # local containers that appear in the constraints (loop bounds, other sizes): their construction sizes
-            added = set()
-            for _ in range(4):
-                grew = False
-                for a in sorted(relevant):
-                    k2 = ctx.size_keys.get(a)
-                    if k2 is None or a in added or a == satom and key[3] == "local":
-                        continue
-                    added.add(a)
-                    if k2[3] == "local":
-                        if k2 not in size_cache:
-                            size_cache[k2] = _construction_size(ctx, f, k2)
-                        cs2 = size_cache[k2]
-                        if cs2 is None:
-                            incomplete.append("size of %s" % k2[2])
-                        else:
-                            sz2 = Lin({a: 1})
-                            base_cons += [sz2 - cs2, cs2 - sz2]
-                            if not cs2.atoms() <= relevant:
-                                relevant |= cs2.atoms()
-                                grew = True
-                for c in base_cons + [c for alt in alternatives for c in alt]:
-                    if c.atoms() & relevant and not c.atoms() <= relevant:
-                        relevant |= c.atoms()
-                        grew = True
-                if not grew:
-                    break
-            divnames = sorted(ctx.divs)
-            divs_here = [d for d in divnames if d in relevant]
-            if len(divs_here) > 3:
+            cases = _cases(ctx, base_cons, alternatives, relevant)
+            if cases is None:
                 res.add(okey, UNMODELLED, where, what, "too many truncated quotients for the case split", func=f.name, extra=extra)
                 continue
-            size_nonneg = [Lin({a: 1}) for a in ctx.sizes if a in relevant]
             goals = [("upper", size - e - Lin(const=1)), ("lower", e)]
             failed = None
-            for signs in itertools.product([True, False], repeat=len(divs_here)):
-                dc = []
-                for dn, sg in zip(divs_here, signs):
-                    dc += ctx.div_constraints(dn, sg)
-                for alt in alternatives:
-                    cons = base_cons + alt + dc + size_nonneg
-                    if fm_infeasible(cons):
-                        continue       # this case cannot occur
-                    for (gname, g) in goals:
-                        if not fm_infeasible(cons + [g.scale(-1) - Lin(const=1)]):
-                            failed = (gname, g, cons, signs)
-                            break
-                    if failed:
+            for cons in cases:
+                for (gname, g) in goals:
+                    if not fm_infeasible(cons + [g.scale(-1) - Lin(const=1)]):
+                        failed = (gname, g, cons, None)
                         break
                 if failed:
                     break
             if failed is None:
                 res.add(okey, DISCHARGED, where, what, "0 <= %r < size proved from %d constraint(s) in %d case(s)" % (
-                    e, len(base_cons), max(1, len(alternatives)) * (2 ** len(divs_here))), func=f.name, extra=extra)
+                    e, len(base_cons), len(cases)), func=f.name, extra=extra)
                 continue
             gname, g, cons, signs = failed
             wit = None
@@ -875,6 +895,8 @@ def _witness(ctx, cons, goal, e, size, relevant, nonlinear=()):
     base = sorted(a for a in relevant if a not in ctx.divs)
     if len(base) > 5:
         return None
+    if any(a.startswith("l:") for a in base):
+        return None           # a local whose value comes from a call or a loop: not a quantity an instance may choose freely
     divs = [d for d in ctx.divs if d in relevant]
 
     def ev(lin, env):
@@ -918,3 +940,47 @@ def _witness(ctx, cons, goal, e, size, relevant, nonlinear=()):
             if good:
                 return (env, ev(e, env), ev(size, env))
     return None
+
+
+# ---- used by Z2: is a computed integer divisor kept away from zero? ----------------------------------------------------------
+def nonzero_verdict(prog, f, node, divisor, size_cache=None):
+    """-> ('ok' | 'bad' | 'unk', message) for the linear divisor expression at `node`"""
+    f.blocks
+    ctx = Ctx(prog, f)
+    loop_cons = _loop_constraints(ctx, node)
+    d = ctx.lin(divisor)
+    if d is None or d.is_const():
+        return ("unk", "divisor outside the linear fragment")
+    base_cons = list(loop_cons)
+    size_cache = {} if size_cache is None else size_cache
+    alternatives, nonlinear, incomplete, relevant = _gather(ctx, f, node, base_cons, set(d.atoms()), size_cache)
+    cases = _cases(ctx, base_cons, alternatives, relevant)
+    if cases is None:
+        return ("unk", "too many truncated quotients")
+    one = Lin(const=1)
+    failed = None
+    for cons in cases:
+        pos = fm_infeasible(cons + [d.scale(-1)])            # d <= 0 impossible  =>  d >= 1
+        neg = fm_infeasible(cons + [d])                      # d >= 0 impossible  =>  d <= -1
+        if not (pos or neg):
+            failed = cons
+            break
+    if failed is None:
+        return ("ok", "%r != 0 follows from %d constraint(s) in %d case(s)" % (d, len(base_cons), len(cases)))
+    if incomplete:
+        return ("unk", "not proved; not refuted either: %s" % "; ".join(incomplete[:2]))
+    wit = _witness(ctx, failed + [d], d.scale(-1) - one + one + one - one - one, d, d, relevant, nonlinear) if False else None
+    # instance with d == 0: constraints + (d >= 0), goal (-d - ... ) encoded as "d - 1 >= 0 fails" i.e. d <= 0
+    wit = _witness(ctx, failed + [d], d - one, d, d, relevant, nonlinear)
+    if wit is None:
+        return ("unk", "not proved; no small instance found")
+    okm = _members_constructible(prog, f, ctx, wit[0])
+    if not okm:
+        return ("unk", "not proved; the failing instance needs member values no public constructor is known to accept")
+    okp, how = _params_attainable(prog, f, ctx, wit[0], node)
+    if not okp:
+        return ("unk", "not proved; the failing instance needs argument values no public entry point is known to pass down")
+    if _opaque_rejecting_call(prog, f, node, relevant):
+        return ("unk", "not proved; a call that may reject receives one of the quantities first")
+    return ("bad", "for %s every live check at this point holds and the divisor %s is 0%s" % (
+        ", ".join("%s = %s" % (_pretty(a), v) for a, v in sorted(wit[0].items()) if not a.startswith("(")), divisor.text()[:40], how))
